@@ -80,3 +80,37 @@ def groups_disagree(make_top, ga, gb, state, cycles):
     d = sorted(n for n in x if x[n] != y.get(n))
     if d: return f"pass groups {ga} and {gb} disagree at step {i} ({'eval' if i % 2 == 0 else 'tick'} of cycle {i // 2}) on {d[:5]}: {[(n, x[n], y.get(n)) for n in d[:3]]}"
   return None
+
+
+def twin_differs(make_top, make_twin, group, state, outs):
+  """false loop vs its acyclic twin: same inputs (taken from `state`), compare the named outputs"""
+  from vlib.ffreplay import apply_group
+  vals = []
+  for mk in (make_top, make_twin):
+    top = mk(); apply_group(top, group)
+    cells = _cells(top); _plant(cells, state)
+    try:
+      top.sim_eval_combinational()
+    except Exception as e:
+      return f"evaluation raised {type(e).__name__}: {e}" if mk is make_top else None
+    vals.append({n: int(cells[n]._uint) for n in outs if n in cells})
+  if vals[0] != vals[1]: return f"false loop returns {vals[0]}, the equivalent acyclic design gives {vals[1]} (group {group})"
+  return None
+
+
+def eval_outcome(make_top, group, state):
+  """-> 'fixed point' | 'not a fixed point: ...' | exception class name"""
+  from vlib.ffreplay import apply_group
+  top = make_top(); apply_group(top, group)
+  cells = _cells(top); _plant(cells, state)
+  try:
+    top.sim_eval_combinational()
+  except Exception as e:
+    return type(e).__name__
+  before = {n: int(o._uint) for n, o in cells.items()}
+  for b in sorted(top._dag.final_upblks - top.get_all_update_ff(), key=lambda f: _key(top, f)):
+    b()
+    after = {n: int(o._uint) for n, o in cells.items()}
+    d = sorted(n for n in before if before[n] != after[n])
+    if d: return f"not a fixed point: re-running {_key(top, b)} changes {d[:4]}"
+  return 'fixed point'
